@@ -164,7 +164,7 @@ impl Bitstr {
     }
 
     pub fn read(&mut self, num_bits: usize) -> Option<Bitstr> {
-        let pos = self.range.start + num_bits;
+        let pos = self.range.start.checked_add(num_bits)?;
         if pos > self.range.end {
             return None;
         }
@@ -175,7 +175,7 @@ impl Bitstr {
     }
 
     pub fn peek(&self, num_bits: usize) -> Option<Bitstr> {
-        let end = self.start() + num_bits;
+        let end = self.start().checked_add(num_bits)?;
         if self.range.start <= end && end <= self.range.end {
             let mut s = self.clone();
             s.range.end = end;
@@ -196,7 +196,7 @@ impl Bitstr {
     }
 
     pub fn split_at(&self, bit_index: usize) -> Option<(Bitstr, Bitstr)> {
-        let mid = self.range.start + bit_index;
+        let mid = self.range.start.checked_add(bit_index)?;
         if mid > self.range.end {
             return None;
         }
